@@ -295,7 +295,11 @@ fn items_json(lm: &LineMap, prefix: &str, items: &[syn::Item], out: &mut Vec<Val
                     None => self_ty.clone(),
                 };
                 let mut methods = vec![];
+                let mut consts = vec![];
                 for ii in &i.items {
+                    if let syn::ImplItem::Const(c) = ii {
+                        consts.push(json!({"name": c.ident.to_string(), "ty": lm.text(c.ty.span()), "expr": lm.text(c.expr.span()), "span": lm.span(c.span())}));
+                    }
                     if let syn::ImplItem::Fn(m) = ii {
                         let p = format!("{}{}::{}", prefix, name, m.sig.ident);
                         methods.push(fn_json(lm, &p, &m.attrs, Some(m.vis.span()), &m.sig, &m.block, m.span()));
@@ -306,7 +310,7 @@ fn items_json(lm: &LineMap, prefix: &str, items: &[syn::Item], out: &mut Vec<Val
                     "span": lm.span(i.span()), "start_no_attrs": start_after_attrs(lm, &i.attrs, i.span()),
                     "attrs": attrs_json(lm, &i.attrs),
                     "brace": [lm.span(i.brace_token.span.open()), lm.span(i.brace_token.span.close())],
-                    "methods": methods}));
+                    "methods": methods, "consts": consts}));
             }
             syn::Item::Mod(m) => {
                 let is_test = m.attrs.iter().any(|a| lm.text(a.span()).contains("cfg(test)"));
@@ -332,8 +336,31 @@ fn items_json(lm: &LineMap, prefix: &str, items: &[syn::Item], out: &mut Vec<Val
                 out.push(json!({"kind": "static", "name": s.ident.to_string(), "path": format!("{}{}", prefix, s.ident), "span": lm.span(s.span())}));
             }
             syn::Item::Trait(t) => {
+                let mut titems = vec![];
+                for ti in &t.items {
+                    match ti {
+                        syn::TraitItem::Fn(m) => {
+                            let p = format!("{}{}::{}", prefix, t.ident, m.sig.ident);
+                            if let Some(b) = &m.default {
+                                let mut f = fn_json(lm, &p, &m.attrs, None, &m.sig, b, m.span());
+                                f["has_body"] = json!(true);
+                                titems.push(f);
+                            } else {
+                                titems.push(json!({"kind": "fn", "name": m.sig.ident.to_string(), "path": p, "span": lm.span(m.span()),
+                                    "start_no_attrs": start_after_attrs(lm, &m.attrs, m.span()),
+                                    "attrs": attrs_json(lm, &m.attrs), "sig": sig_json(lm, &m.sig), "has_body": false,
+                                    "semi": m.semi_token.map(|s| lm.span(s.span()))}));
+                            }
+                        }
+                        other => {
+                            titems.push(json!({"kind": "other", "span": lm.span(other.span())}));
+                        }
+                    }
+                }
                 out.push(json!({"kind": "trait", "name": t.ident.to_string(), "path": format!("{}{}", prefix, t.ident),
-                    "span": lm.span(t.span()), "start_no_attrs": start_after_attrs(lm, &t.attrs, t.span()), "attrs": attrs_json(lm, &t.attrs)}));
+                    "span": lm.span(t.span()), "start_no_attrs": start_after_attrs(lm, &t.attrs, t.span()), "attrs": attrs_json(lm, &t.attrs),
+                    "brace": [lm.span(t.brace_token.span.open()), lm.span(t.brace_token.span.close())],
+                    "items": titems}));
             }
             syn::Item::Macro(m) => {
                 out.push(json!({"kind": "macro", "name": m.mac.path.segments.last().map(|s| s.ident.to_string()).unwrap_or_default(),
